@@ -3,6 +3,7 @@ package checks
 import (
 	"encoding/json"
 	"strings"
+	"time"
 
 	"verifharness/model"
 	"verifharness/mon"
@@ -87,11 +88,13 @@ func stdEnv(r *mon.Rng) *env {
 	add("sarr", vArr(vStr("ab"), vStr("b")))
 	add("z", vInt(0))
 	add("my var", vInt(4))
+	add("ds", vStr(mon.Pick(r, []string{"2024-01-01T10:00:00Z", "2024-01-02T10:00:00Z", "2024-01-03T10:00:00Z", "2024-01-04T10:00:00Z", "2024-01-05T10:00:00Z", "2024-01-06T23:30:00-11:00"})))
+	add("dt", vTime(time.Unix(int64(86400*(19000+r.Intn(7))), 0).UTC()))
 	return e
 }
 
 var intVars = []string{"a", "b", "c", "d", "l", "z"}
-var intLits = []string{"2", "3", "5", "7", "11", "1", "0", "13"}
+var intLits = []string{"2", "3", "5", "7", "11", "1", "0", "13", "010", "0017", "08", "0100"}
 
 func (g *exprGen) typed(depth int, want string) *model.Node {
 	r := g.r
@@ -237,7 +240,7 @@ func printings(n *model.Node, seed uint64) []string {
 		return string(b)
 	}
 	spaces := []string{" ", "  ", "\t", "\n", " \r\n ", ""}
-	comments := []string{"/* c */", "/**/", "/* a + b */", "/* ' */", "/*\n*/"}
+	comments := []string{"/* c */", "/**/", "/* a + b */", "/* ' */", "/*\n*/", "/* a **/", "/***/", "/** doc **/"}
 	rich := &model.PrintOptions{
 		Extra:   func() bool { return r.Chance(1, 6) },
 		Space:   func() string { return mon.Pick(r, spaces) },
